@@ -57,6 +57,10 @@ def collect(res):
     reg, specs = dictio.build()
     seq_props.collect_specs(res, specs)
     importer_obligations(res)
+    # the importer's default node class: AnyNode.__init__ (and Node.__init__) store the keyword attributes into __dict__ and assign
+    # parent / children through the verified setters (constructor contracts of C02) - "arbitrary attribute keys" rests on that
+    from contracts import symlink
+    seq_props.collect_specs(res, symlink.build_ctors())
     for o in res.obligations:
         o.props = set(o.props) | {"C10"}
 
